@@ -461,7 +461,10 @@ def run(ctx):
     # the spatial hashing of the bond search: a pair within bonding distance is
     # examined wherever the cell boundaries fall (same rules as C11.R1-R3)
     from checks import c11
-    c11.cell_list(ctx, lambda name: 'C04.R5')
+    shared11 = c11.cell_list(ctx, lambda name: 'C04.R5')
+    # ... and is judged by a criterion that does not depend on which of the two
+    # atoms the search happens to hand over first (that order follows the cells)
+    c11.criterion_rules(ctx, 'C04.R5', shared11)
 
     # ------------------------------------------------------------------ R1
     n_reads = 0
